@@ -200,8 +200,10 @@ def run(tier):
             raise Broken("vacuous: no case of kind %s" % k)
     admin = [{"id": i, "s": a["s"], "req": qf(a["r"]), "ord": a["ord"]} for i, a in enumerate(by["admit"])]
     aouts, crashes = run_sharded(exe, "admit", admin, w, "admit", nshard)
-    for c in crashes:
-        ck.disagree({"kind": "crash", "mode": "admit", "s": c["case"]["s"]}, c)
+    for c in crashes:                             # signal 14 = the case did not return within the time allowed
+        a = by["admit"][c["case"]["id"]]
+        ck.disagree({"kind": "hang" if c["signal"] == 14 else "crash", "mode": "admit", "s": a["s"], "request": a["cls"]},
+                    dict(c, requested=pstr(a["r"]), how="cov_run admit: every route that sets the third parameter, 1-D context, range 10"))
     amap = {o["id"]: o for o in aouts}
     admit_count = collections.Counter()
     admit_routes = set()
